@@ -332,6 +332,19 @@ fn json_text(text: &str, st: &mut Stats) -> CheckResult {
         Ok(bp) => {
             st.class("json:blueprint-accepted");
             st.nontrivial(text);
+            // what was loaded is then looked into by name and gets parameters applied
+            for title in [None, Some(""), Some("x"), Some("a.b"), Some("."), Some("a..b"), Some("no dots at all")] {
+                let mut probe = bp.clone();
+                // titles are free-form strings in a blueprint file
+                if let (Some(t), Some(v)) = (title, probe.validators.first_mut()) {
+                    v.title = t.to_string();
+                }
+                let unit = uplc::ast::Data::constr(0, vec![]);
+                for (m, v) in [(None, None), (Some("m"), None), (None, Some("v")), (Some(""), Some(""))] {
+                    let _ = no_panic(|| probe.lookup(m, v).is_some()).map_err(|p| panic_failure("Blueprint::lookup", p, input.clone()))?;
+                    let _ = no_panic(|| probe.apply_parameter(m, v, &unit).is_ok()).map_err(|p| panic_failure("Blueprint::apply_parameter", p, input.clone()))?;
+                }
+            }
             // saving what was loaded must work and load again to the same value
             let saved = no_panic(|| serde_json::to_string(&bp)).map_err(|p| panic_failure("to_string(Blueprint)", p, input.clone()))?;
             if let Ok(saved) = saved {
